@@ -63,11 +63,28 @@ Section E.
   Lemma sticky_open_cb : sticky (open_cb d).
   Proof. intros w H. rewrite open_cb_eq. apply sticky_open_fn. exact H. Qed.
 
-  Lemma err_close_hand a b w : w_err (close_hand d a b w) = w_err w.
-  Proof. unfold close_hand. destruct (_ && _); [|reflexivity]. destruct (a_newbuf a); reflexivity. Qed.
+  Lemma err_close_give a w : w_err (close_give d a w) = w_err w.
+  Proof. unfold close_give. cbv zeta. destruct (a_newbuf a); reflexivity. Qed.
+
+  (* with an eager platform the handover runs the opening function, which may fail: no longer an
+     equality *)
+  Lemma sticky_close_hand a b : sticky (close_hand d a b).
+  Proof.
+    intros w H. unfold close_hand. destruct (_ && _); [|exact H].
+    destruct (a_eager a); [apply sticky_open_fn|]; rewrite err_close_give; exact H.
+  Qed.
+  Lemma err_close_hand_back a b w : w_err (close_hand d a b w) = false -> w_err w = false.
+  Proof.
+    intros H. destruct (w_err w) eqn:E; [|reflexivity].
+    rewrite (sticky_close_hand a b w E) in H. discriminate.
+  Qed.
+  Lemma err_close_hand_lazy a b w : a_eager a = false -> w_err (close_hand d a b w) = w_err w.
+  Proof.
+    intros Ha. unfold close_hand. destruct (_ && _); [|reflexivity]. rewrite Ha. apply err_close_give.
+  Qed.
 
   Lemma sticky_close_cb : sticky (close_cb d).
-  Proof. intros w H. rewrite close_cb_eq, err_close_hand. apply sticky_close_fn. exact H. Qed.
+  Proof. intros w H. rewrite close_cb_eq. apply sticky_close_hand. apply sticky_close_fn. exact H. Qed.
 
   Lemma sticky_with_use_ts f : sticky f -> sticky (with_use_ts f).
   Proof. intros F w H. unfold with_use_ts. rewrite err_set_c. apply F. rewrite err_set_c. exact H. Qed.
